@@ -10,7 +10,7 @@ func init() {
 				Reach:     []string{"history of several requests", "unplannable operation"},
 				Known:     []string{"C14-operation-type-not-in-key", "C14-operation-name-not-in-key"},
 				Functions: []string{"planner.(*CachedPlanner).Plan", "planner.(*CachedPlanner).hash", "planner.(*CachedPlanner).clean", "planner.NewCachedPlanner", "planner.SequentialPlanner.Plan", "format.(*BufferedFormatter).FormatSelectionSet"}},
-			{Name: "cache-concurrent", Pkg: "planner", Files: []string{"planner/c14.go"}, Entry: "VerifCacheConcurrent", Mode: "all", Race: true,
+			{Name: "cache-concurrent", Pkg: "planner", Files: []string{"planner/c14.go"}, Entry: "VerifCacheConcurrent", Mode: "all", Race: true, Native: true,
 				Reach:     []string{"concurrent plans"},
 				Functions: []string{"planner.(*CachedPlanner).Plan", "planner.(*CachedPlanner).clean"}},
 			{Name: "subscriptions-on-cached-plan", Pkg: ".", Files: []string{"root/fed.go", "root/c01.go", "root/ws.go", "root/c17.go"}, Entry: "VerifEvents", Mode: "seq",
